@@ -571,6 +571,9 @@ def check(fx, rep, tier):
     check_absorption(mm, rep)
     check_span_shapes(mm, rep)
     check_listing_order(mm, rep)
+    from .c15 import check_transparent_constructors
+
+    check_transparent_constructors(fx, rep, "R16.3")
     check_combine(fx, rep)
     # the outcome may not depend on which type variables stand for the parts: no ordering by identity inside merge and its helpers
     from .c02 import check_identity_order
